@@ -108,14 +108,20 @@ def _item(it) -> Any:
             "r": None if it.reward is None else float(it.reward).hex()}
 
 
-def rng_digest() -> Dict[str, str]:
-    """Digests of the global generator states (python random, numpy global, torch CPU if imported)."""
+OWN_STATE_KEY = "_generator_state"    # the key of the F-11 repair's decorator (Gen/OwnGeneratorState.stateKey; c03.py obliges the equality)
+
+
+def rng_digest(env=None) -> Dict[str, str]:
+    """Digests of the generator states THE ENVIRONMENT'S NEXT OPERATION STARTS FROM: since the F-11 repair its own saved state of python's
+    and numpy's process-wide generators (right after one of its operations that IS the process-wide state; later somebody else may have
+    moved the latter), on a tree without the repair the process-wide state; torch's CPU generator if imported."""
     import hashlib
     import random as _random
-    out = {"py": hashlib.sha1(repr(_random.getstate()).encode()).hexdigest()[:12]}
+    own = getattr(env, "__dict__", {}).get(OWN_STATE_KEY) if env is not None else None
+    out = {"py": hashlib.sha1(repr(own[0] if own is not None else _random.getstate()).encode()).hexdigest()[:12]}
     try:
         import numpy as np
-        st = np.random.get_state()
+        st = own[1] if own is not None else np.random.get_state()
         out["np"] = hashlib.sha1(st[1].tobytes() + repr(st[2:]).encode()).hexdigest()[:12]
     except Exception:  # pragma: no cover
         pass
@@ -207,17 +213,60 @@ def run_spec(spec: Dict, out) -> int:
         canon.ids.clear()
         env = PrimaiteGymEnv(env_config=cfg)
 
-        def hist():
-            return {"histories": {n: [_item(i) for i in a.history] for n, a in env.game.agents.items()}, "rng": rng_digest()}
+        # -- FOREIGN ACTIVITY (variant key `foreign`, since the F-11 repair part of the claim): between every two operations of the
+        # environment somebody else uses the process-wide generators: k draws from `random` and `numpy.random` (k even: they are RE-SEEDED
+        # first); k = 3: additionally a SECOND LIVE ENVIRONMENT of the same scenario (another seed) is built after the first operation and
+        # stepped / reset in between. None of it may show in the compared stream.
+        foreign = int(spec.get("foreign") or 0)
+        neighbour = {"env": None, "n": 0}
 
-        emit({"op": "new", "agents": list(env.game.agents), "order_deps_first": _order_ok(env.game), "rng": rng_digest(),
+        def foreign_activity():
+            if not foreign:
+                return
+            import random as _r
+            import numpy as _np
+            if foreign % 2 == 0:
+                _r.seed(foreign)
+                _np.random.seed(foreign)
+            for _ in range(foreign):
+                _r.random()
+                _np.random.randint(0, 65535)
+            if foreign == 3:
+                saved_ids = dict(canon.ids)
+                # torch's process-wide generator is seeded by every seeding operation of every environment (for the LEARNING code's
+                # benefit) and is not the environment's: nothing in the package draws from it (inventory: its only torch site is the
+                # seeding call), so it cannot reach the trajectory - but it is part of this stream's generator digest. Shielded here;
+                # that a second environment re-seeds the learner's torch generator is stated as NOT covered in the design note.
+                th = sys.modules.get("torch")
+                torch_state = th.get_rng_state() if th is not None else None
+                try:
+                    if neighbour["env"] is None:
+                        ncfg = copy.deepcopy(cfg)
+                        ncfg.setdefault("game", {})["seed"] = 4242
+                        neighbour["env"] = PrimaiteGymEnv(env_config=ncfg)
+                    neighbour["n"] += 1
+                    if neighbour["n"] % 5 == 0:
+                        neighbour["env"].reset(seed=neighbour["n"])
+                    neighbour["env"].step(0)
+                except Exception as e:
+                    warm_failed.append(f"WARMUP-FAILED neighbour {type(e).__name__}: {str(e)[:120]}")
+                if torch_state is not None:
+                    th.set_rng_state(torch_state)
+                canon.ids.clear()
+                canon.ids.update(saved_ids)
+
+        def hist():
+            return {"histories": {n: [_item(i) for i in a.history] for n, a in env.game.agents.items()}, "rng": rng_digest(env)}
+
+        emit({"op": "new", "agents": list(env.game.agents), "order_deps_first": _order_ok(env.game), "rng": rng_digest(env),
               "obs": _plain(env._get_obs())})
         for op in spec["ops"]:
+            foreign_activity()
             if isinstance(op, list) and op and op[0] == "reset":
                 emit(hist())
                 canon.ids.clear()  # identifiers are numbered per episode (the new game shares none with the old one)
                 obs, info = env.reset(seed=op[1])
-                emit({"op": "reset", "seed": op[1], "obs": _plain(obs), "rng": rng_digest()})
+                emit({"op": "reset", "seed": op[1], "obs": _plain(obs), "rng": rng_digest(env)})
                 continue
             obs, reward, term, trunc, info = env.step(op)
             if not _order_ok(env.game):
@@ -424,7 +473,7 @@ def run_workers(spec: Dict, variants: List[Dict], repo: Path, verif: Path, timeo
         outs = []
         for v in variants:
             s = {k: x for k, x in spec.items() if k != "cfg"}
-            s.update(cfg_yaml=cfg_yaml, loud=bool(v.get("loud")), pin=v.get("pin"), warm_idx=list(v.get("warm") or []))
+            s.update(cfg_yaml=cfg_yaml, loud=bool(v.get("loud")), pin=v.get("pin"), warm_idx=list(v.get("warm") or []), foreign=int(v.get("foreign") or 0))
             outs.append((v, servers.submit(int(v.get("hashseed", 0)), s)))
         res = []
         for v, out in outs:
@@ -441,7 +490,7 @@ def run_workers(spec: Dict, variants: List[Dict], repo: Path, verif: Path, timeo
                    "TMPDIR": str(home), "XDG_CONFIG_HOME": str(home / ".config"), "XDG_DATA_HOME": str(home / ".local"),
                    "XDG_STATE_HOME": str(home / ".state"), "XDG_CACHE_HOME": str(home / ".cache")}
             s = {k: x for k, x in spec.items() if k != "cfg"}
-            s.update(cfg_yaml=cfg_yaml, loud=bool(v.get("loud")), pin=v.get("pin"), warm_idx=list(v.get("warm") or []))
+            s.update(cfg_yaml=cfg_yaml, loud=bool(v.get("loud")), pin=v.get("pin"), warm_idx=list(v.get("warm") or []), foreign=int(v.get("foreign") or 0))
             p = subprocess.Popen([sys.executable, "-m", "harness.rigs.xproc"], cwd=str(verif), env=env, stdin=subprocess.PIPE,
                                  stdout=subprocess.PIPE, stderr=subprocess.PIPE, text=True)
             p.stdin.write(json.dumps(s))
